@@ -422,6 +422,32 @@ impl<B: Backend> Fixture<B> {
         v
     }
 
+    /// The matrix cell that physically holds the accumulator of HornerAcc op `op` (limb `u`):
+    /// `out` columns of lane 0 in the row before the one that holds the op's own `a` operand.
+    /// `None` for steps packed inside a row (their accumulator is not a cell) or when the op
+    /// cannot be located.
+    fn horner_acc_cell(&self, op: usize, u: usize) -> Option<CellEdit> {
+        let row = self.circuit.ops[..op]
+            .iter()
+            .filter(|o| matches!(o, Op::Alu { .. }))
+            .count();
+        let cells = self.cellmap.cells_of.get(&Loc::Alu { row, port: 0, limb: 0 })?;
+        let (t, mrow, col) = *cells.first()?;
+        let d = B::D;
+        if col != 0 {
+            return None; // not the first step of a lane-0 schedule entry
+        }
+        let m = self.cellmap.honest.get(t)?;
+        let h = m.values.len() / m.width.max(1);
+        let prev = (mrow + h - 1) % h;
+        Some(CellEdit {
+            table: t,
+            row: prev,
+            col: 3 * d + u.min(d - 1),
+            delta: 1,
+        })
+    }
+
     /// Row scalars that mention `slot` (ports the row's relation uses).
     fn locs_of_slot(&self, slot: WitnessId) -> Vec<(Loc, bool /*base-field scalar*/)> {
         let mut v = vec![];
@@ -573,7 +599,18 @@ impl<B: Backend> Fixture<B> {
                     ..Deviation::none()
                 };
                 let ex = self.forge(&dev)?;
-                Ok((ex.traces.clone(), self.inputs.clone(), vec![], ex.traces))
+                // The accumulator of a HornerAcc row is not a cell of that row: the AIR reads
+                // it from the `out` cells of the PREVIOUS matrix row (same lane 0). A prover who
+                // deviates the accumulator row-locally must therefore also put the deviated
+                // value there — possible exactly when that row is inactive (separator / padding)
+                // or its `out` is off the bus. The cell edit goes through hook H4.
+                let mut edits = vec![];
+                if *port == Port::Acc
+                    && let Some(cell) = self.horner_acc_cell(*op, *u)
+                {
+                    edits.push(cell);
+                }
+                Ok((ex.traces.clone(), self.inputs.clone(), edits, ex.traces))
             }
         }
     }
